@@ -171,9 +171,14 @@ impl PidTracking {
         ]);
         let max_slots = u32::from_le_bytes([data[24], data[25], data[26], data[27]]);
 
-        let slot_count = max_slots as usize;
+        // `max_slots` comes from shared memory. A slot whose PID lies beyond
+        // the mapped data has no storage at all (its mode lies further still),
+        // so never size the tables past what the mapping can hold.
         let pids_start = PID_TRACKING_HEADER_SIZE;
-        let modes_start = pids_start + slot_count * 4;
+        let modes_start = pids_start + max_slots as usize * 4;
+        let mapped_slots = (data.len() - pids_start) / 4;
+        let slot_count = (max_slots as usize).min(mapped_slots);
+        let max_slots = slot_count as u32;
 
         let mut pids = vec![0u32; slot_count];
         let mut modes = vec![0u32; slot_count];
